@@ -96,6 +96,8 @@ package dnsforward
 //@   property C16
 //@   modifies lastCID, lastCIDErr
 //@   ensures no-clientid-on-plain: pctx.Proto != proxy.ProtoHTTPS && pctx.Proto != proxy.ProtoTLS && pctx.Proto != proxy.ProtoQUIC ==> clientID == "" && err == nil
+//@   ensures doh-bad-path-fails: old(pctx.Proto == proxy.ProtoHTTPS && dohBad(pctx)) ==> err != nil
+//@   ensures doh-path-id-wins: old(pctx.Proto == proxy.ProtoHTTPS && dohHasID(pctx)) ==> err == nil && clientID == old(strings.ToLower(seg(dohPath(pctx), 1)))
 //@   ghost at return: lastCID = clientID
 //@   ghost at return: lastCIDErr = (err != nil)
 
@@ -122,17 +124,20 @@ package dnsforward
 // ["dns-query"] (no ClientID) or ["dns-query", id] with id a valid label; anything else fails.
 //@ define segs(p string) []string = strings.Split(path.Clean(p), "/")
 //@ define lead(p string) int = (segs(p)[0] == "" ? 1 : 0)
+//@ define nseg(p string) int = len(segs(p)) - lead(p)
+//@ define seg(p string, i int) string = segs(p)[lead(p) + i]
+//@ define dohPath(pctx *proxy.DNSContext) string = pctx.HTTPRequest.URL.Path
+//@ define dohBad(pctx *proxy.DNSContext) bool = pctx.HTTPRequest == nil || nseg(dohPath(pctx)) > 2 || (nseg(dohPath(pctx)) >= 1 && seg(dohPath(pctx), 0) != "dns-query") || (nseg(dohPath(pctx)) == 2 && !validLabel(seg(dohPath(pctx), 1)))
+//@ define dohHasID(pctx *proxy.DNSContext) bool = pctx.HTTPRequest != nil && nseg(dohPath(pctx)) == 2 && seg(dohPath(pctx), 0) == "dns-query" && validLabel(seg(dohPath(pctx), 1))
 
 //@ func clientIDFromDNSContextHTTPS(pctx *proxy.DNSContext) (clientID string, err error)
 //@   property C16
 //@   modifies nothing
 //@   nullable pctx.HTTPRequest
-//@   ensures nil-request: pctx.HTTPRequest == nil ==> err != nil
-//@   ensures extracted: err == nil && clientID != "" ==> len(segs(pctx.HTTPRequest.URL.Path)) - lead(pctx.HTTPRequest.URL.Path) == 2 && segs(pctx.HTTPRequest.URL.Path)[lead(pctx.HTTPRequest.URL.Path)] == "dns-query" && validLabel(segs(pctx.HTTPRequest.URL.Path)[lead(pctx.HTTPRequest.URL.Path)+1]) && clientID == strings.ToLower(segs(pctx.HTTPRequest.URL.Path)[lead(pctx.HTTPRequest.URL.Path)+1])
-//@   ensures extra-parts-fail: pctx.HTTPRequest != nil && len(segs(pctx.HTTPRequest.URL.Path)) - lead(pctx.HTTPRequest.URL.Path) > 2 ==> err != nil
-//@   ensures wrong-prefix-fails: pctx.HTTPRequest != nil && len(segs(pctx.HTTPRequest.URL.Path)) - lead(pctx.HTTPRequest.URL.Path) >= 1 && segs(pctx.HTTPRequest.URL.Path)[lead(pctx.HTTPRequest.URL.Path)] != "dns-query" ==> err != nil
-//@   ensures invalid-label-fails: pctx.HTTPRequest != nil && len(segs(pctx.HTTPRequest.URL.Path)) - lead(pctx.HTTPRequest.URL.Path) == 2 && !validLabel(segs(pctx.HTTPRequest.URL.Path)[lead(pctx.HTTPRequest.URL.Path)+1]) ==> err != nil
-//@   ensures bare-path: pctx.HTTPRequest != nil && len(segs(pctx.HTTPRequest.URL.Path)) - lead(pctx.HTTPRequest.URL.Path) == 1 && segs(pctx.HTTPRequest.URL.Path)[lead(pctx.HTTPRequest.URL.Path)] == "dns-query" ==> err == nil && clientID == ""
+//@   ensures extracted: err == nil && clientID != "" ==> dohHasID(pctx) && clientID == strings.ToLower(seg(dohPath(pctx), 1))
+//@   ensures bad-path-fails: dohBad(pctx) ==> err != nil
+//@   ensures good-path-ok: dohHasID(pctx) ==> err == nil && clientID == strings.ToLower(seg(dohPath(pctx), 1))
+//@   ensures bare-path: pctx.HTTPRequest != nil && nseg(dohPath(pctx)) == 1 && seg(dohPath(pctx), 0) == "dns-query" ==> err == nil && clientID == ""
 
 // Reads connection state only (TLS / QUIC / HTTP request objects); body is I/O glue and is not verified.
 //@ func clientServerName(pctx *proxy.DNSContext, proto proxy.Proto) (srvName string, err error)
